@@ -12,7 +12,12 @@ The executions decide; an independent CFG reaching-definitions analysis only cro
 """
 from __future__ import annotations
 
+import atexit
+import os
 import re
+import shutil
+import sys
+import tempfile
 
 from vp import harness
 from vp import c09_skeletons as sk
@@ -44,28 +49,33 @@ ASSUMPTIONS = [
     "(try body with handler; try body/handler/else of a try with finally; suppressing with); `while True` as written",
     "liberal space: additionally a raise before every statement of such a region and after its last statement; "
     "every loop may exit after any iteration; exceptions are E (caught by `except E`) or one not caught by it",
-    "a run ends at the first UNBOUND read (what follows is an exception edge at a non-call)",
+    "a real execution ends at the first UNBOUND read (CPython raises at a non-call); the run is continued past it "
+    "only to widen the upper bound, because a reaching-definitions analysis does not stop at a use",
     "upper bound only when all four explorations (strict/liberal x L=2/3) completed and L=2,3 agree; else undecided",
     "reported(use) = int literals in every reveal_type diagnostic on the use's line (finally bodies are revealed "
     "twice: union) + UNBOUND iff undefined_name/possibly_undefined_name is reported there; a revealed Any that is "
     "not the stand-in for the reported unbound state makes the literal lower bound undecidable (counted)",
-    "global mode: the module defines v = 0, so reads observe 0 instead of UNBOUND",
+    "global mode: the module defines v = 0, so reads observe 0 instead of UNBOUND; in the liberal space f may be "
+    "entered with v holding any literal f assigns (an earlier invocation of f)",
+    "no upper bound is claimed for reads inside the nested def nor for the literal the nonlocal-writing def stores "
+    "(a closure may be called by anything); lower bounds are claimed for both",
     "the CFG reaching-definitions analysis (strict and liberal edge sets) never decides: disagreement with the "
     "executed sets is counted as harness-inconsistent",
 ]
 FLOORS = {
-    "quick": {"distinct_nontrivial": 12000, "skeletons": 25000, "schedules_run": 2000000, "uses_observed": 100000,
-              "upper_decided": 20000, "lower_checks": 50000},
-    "thorough": {"distinct_nontrivial": 20000, "skeletons": 40000, "schedules_run": 5000000, "uses_observed": 200000,
-                 "upper_decided": 30000, "lower_checks": 100000},
+    "quick": {"distinct_nontrivial": 8000, "skeletons": 25000, "schedules_run": 3000000, "uses_observed": 38000,
+              "upper_decided": 24000, "lower_checks": 29000, "upper_checks": 26000},
+    "thorough": {"distinct_nontrivial": 50000, "skeletons": 85000, "schedules_run": 10000000, "uses_observed": 150000,
+                 "upper_decided": 80000, "lower_checks": 120000, "upper_checks": 100000},
 }
 NSHARDS = 16
 WATCHDOG_S = {"quick": 900, "thorough": 7200}
-BATCH = 120
+BATCH = 1  # one module per skeleton: `global v` / a nonlocal whose binding comes later write to the MODULE scope,
+# so skeletons sharing a module contaminate each other (seen: Literal[1] revealed for a use before any assignment)
 MAX_DEC = 18
 MAX_RUNS = 1 << 14
 SHRINK_BUDGET = 200
-SHRINK_PER_KEY = 2
+SAMPLED_PER_SHARD = 8000
 
 _LIT_RE = re.compile(r"Literal\[(-?\d+(?:, -?\d+)*)\]$")
 
@@ -110,11 +120,30 @@ def parse_revealed(text: str, rep: Report) -> None:
             rep.other = True
 
 
+_PRELUDE_MOD = []
+
+
+def _prelude_module() -> str:
+    """The helpers every skeleton calls live in a real module on disk (imported, not re-checked per case)."""
+    if not _PRELUDE_MOD:
+        d = os.environ.get("VERIF_SCRATCH")
+        if not d or not os.path.isdir(d):
+            d = tempfile.mkdtemp(prefix="verif-C09-")
+            atexit.register(shutil.rmtree, d, True)
+        name = f"c09_prelude_{os.getpid()}"  # the scratch directory is shared by all shards
+        with open(os.path.join(d, name + ".py"), "w") as f:
+            f.write(sk.PRELUDE_PLAIN)
+        sys.path.insert(0, d)
+        _PRELUDE_MOD.append(name)
+    return _PRELUDE_MOD[0]
+
+
 def pa_reports(skels):
     """skels: list of (mode, body), all of one mode. -> (list of {site: Report}, other-code histogram, exception)."""
     mode = skels[0][0]
-    pre = sk.PRELUDE_PLAIN if mode == "global" else sk.PRELUDE_PLAIN.replace("\nv = 0\n", "\n")
-    lines = pre.split("\n")
+    lines = [f"from {_prelude_module()} import E, c, it, boom, CmS, CmN"]
+    if mode == "global":
+        lines.append("v = 0")
     where = {}  # absolute 1-based line -> (skeleton index, site)
     span = []
     for i, (m, body) in enumerate(skels):
@@ -167,27 +196,33 @@ class Runs:
 def execute(mode, body) -> Runs:
     ns = sk.compile_instr(mode, body)
     out = Runs()
-    obs = {}
+    real = {}
+    allobs = {}
     complete = True
     out.nruns = 0
     out.use_events = 0
     out.errors = []
-    for L in (2, 3):
-        for liberal in (False, True):
-            o, runs, comp, ue, errs = sk.explore(ns, L, liberal, MAX_DEC, MAX_RUNS)
-            obs[(L, liberal)] = o
-            complete = complete and comp
-            out.nruns += runs
-            out.use_events += ue
-            out.errors += errs
-    out.strict = obs[(2, False)] | obs[(3, False)]
-    up2 = obs[(2, False)] | obs[(2, True)]
-    up3 = obs[(3, False)] | obs[(3, True)]
+    for L, liberal in ((2, False), (3, False), (2, True), (3, True)):
+        if liberal and L == 3 and not complete:
+            # the upper bound is already undecided; the lower bound only needs the strict runs
+            real[(L, liberal)] = real[(2, True)]
+            allobs[(L, liberal)] = allobs[(2, True)]
+            continue
+        o, z, runs, comp, ue, errs = sk.explore(ns, L, liberal, MAX_DEC, MAX_RUNS)
+        real[(L, liberal)] = o
+        allobs[(L, liberal)] = o | z
+        complete = complete and comp
+        out.nruns += runs
+        out.use_events += ue
+        out.errors += errs
+    out.strict = real[(2, False)] | real[(3, False)]
+    up2 = allobs[(2, False)] | allobs[(2, True)]
+    up3 = allobs[(3, False)] | allobs[(3, True)]
     out.upper = up2 | up3
     out.why_undecided = None
     if not complete:
         out.why_undecided = "truncated"
-    elif up2 != up3:
+    elif up2 != up3 or real[(2, False)] != real[(3, False)]:
         out.why_undecided = "not-saturated"
     out.decided = out.why_undecided is None
     out.reached = {s for s, _ in out.upper}
@@ -195,11 +230,11 @@ def execute(mode, body) -> Runs:
     inc = []
     if out.errors:
         inc.append("exec-error:" + out.errors[0])
-    cs = sk.cfg_reaching(mode, body, False)
-    cl = sk.cfg_reaching(mode, body, True)
+    cs = sk.cfg_reaching(mode, body, False, True)
+    cl = sk.cfg_reaching(mode, body, True, False)
     if not out.strict <= cs:
         inc.append(f"strict-executed-not-in-cfg:{sorted(out.strict - cs, key=repr)}")
-    if not obs[(3, False)] <= obs[(3, True)] or not obs[(2, False)] <= obs[(2, True)]:
+    if not allobs[(2, False)] <= allobs[(2, True)] or (complete and not allobs[(3, False)] <= allobs[(3, True)]):
         inc.append("strict-not-subset-of-liberal")
     if not cs <= cl:
         inc.append("cfg-strict-not-in-cfg-liberal")
@@ -215,238 +250,317 @@ def execute(mode, body) -> Runs:
 
 
 # ---------------------------------------------------------------------------
-# mechanism key (DESIGN Appendix A): side, (construct of the assignment, construct of the use), unbound|literal
+# verdicts: raw violations (side, site, literal|None, message)
 
 
-def _loop_of(path) -> str:
-    for r, _ in reversed(path):
-        if r in ("while-body", "for-body", "wtrue-body"):
-            return r
-    return "none"
-
-
-def relation(pa, pu) -> str:
-    """How the assignment at path pa sits relative to the use at path pu: the pair of constructs that first
-    separates them (the blocks of their lowest common ancestor), not the innermost ones."""
-    i = 0
-    while i < len(pa) and i < len(pu) and pa[i] == pu[i]:
-        i += 1
-    if pa[i][0] == pu[i][0]:  # same block, different statements
-        a = pa[i + 1][0] if len(pa) > i + 1 else "plain"
-        u = pu[i + 1][0] if len(pu) > i + 1 else "plain"
-        if pa[i][1] < pu[i][1]:
-            return f"{a}>{u}"
-        return f"{a}>{u}@back:{_loop_of(pa[: i + 1])}"
-    return f"{pa[i][0]}>{pu[i][0]}"  # different blocks of one compound statement
-
-
-def mech_key(mode, body, side, site, lit) -> str:
-    lits, sites = sk.number(body)
-    pu = next(p for p, s in sites.items() if s == site)
-    kind = "unbound" if lit is None else "literal"
-    stmt_at = dict(sk.walk(body))
-    if mode == "global":
-        return f"{side}|{kind}|global-variable"
-    if stmt_at[pu][0] == "gdef":
-        return f"{side}|{kind}|nested-def-read"
-    if lit is not None:
-        if lit == 0:
-            return f"{side}|{kind}|module-value"
-        pa = next(p for p, k in lits.items() if k == lit)
-        if stmt_at[pa][0] == "hdef":
-            return f"{side}|{kind}|nonlocal-write"
-        return f"{side}|{kind}|{relation(pa, pu)}"
-    rels = set()
-    for pa in lits:
-        rels.add("nonlocal-write" if stmt_at[pa][0] == "hdef" else relation(pa, pu))
-    return f"{side}|{kind}|{'+'.join(sorted(rels))}"
-
-
-# ---------------------------------------------------------------------------
-# verdicts
-
-
-def judge(mode, body, reports, runs: Runs, ctx=None):
-    """-> list of (key, what) for one skeleton."""
+def judge(mode, body, reports, runs: Runs, stats=None):
     out = []
-    seen = set()
-    text = None
 
-    def add(side, site, lit, msg):
-        nonlocal text
-        key = mech_key(mode, body, side, site, lit)
-        if key in seen:
-            return
-        seen.add(key)
-        if text is None:
-            text = sk.source_text(mode, body)
-        out.append((key, f"{msg}\n{text}"))
+    def bump(name):
+        if stats is not None:
+            stats[name] = stats.get(name, 0) + 1
 
+    lits, sites = sk.number(body)
+    stmt_at = dict(sk.walk(body))
+    # a nested function may be called by anything that gets hold of it: no upper bound is claimed for reads
+    # inside `g` nor for the literal `h` writes
+    closure_sites = {s for p, s in sites.items() if stmt_at[p][0] == "gdef"}
+    closure_lits = {k for p, k in lits.items() if stmt_at[p][0] == "hdef"}
     # lower bound: every strict-space observation is a real execution
     for site, x in sorted(runs.strict, key=repr):
         rep = reports[site]
         if not rep.revealed:
-            if ctx:
-                ctx.count("use_without_reveal")
+            bump("use_without_reveal")
             continue
-        if ctx:
-            ctx.count("lower_checks")
+        bump("lower_checks")
         if x == UNB:
             if not rep.unbound:
-                add("lower", site, None,
-                    f"use #{site} executes with v UNBOUND under a strict schedule; pyanalyze: {rep.show()}")
+                out.append(("lower", site, None,
+                            f"use #{site} executes with v UNBOUND under a strict schedule; pyanalyze: {rep.show()}"))
         elif x not in rep.lits:
             if rep.other:
-                if ctx:
-                    ctx.count("lower_undecidable_any")
+                bump("lower_undecidable_any")
                 continue
-            add("lower", site, x,
-                f"use #{site} reads {x} under a strict schedule; pyanalyze: {rep.show()}")
+            out.append(("lower", site, x, f"use #{site} reads {x} under a strict schedule; pyanalyze: {rep.show()}"))
     # upper bound: only when the whole liberal space was executed and saturated
     if runs.decided:
         for site, rep in sorted(reports.items()):
             if site not in runs.reached or not rep.revealed:
-                if ctx:
-                    ctx.count("upper_site_unreached")
+                bump("upper_site_unreached")
                 continue
-            if ctx:
-                ctx.count("upper_checks")
+            if site in closure_sites:
+                bump("upper_not_claimed_closure_read")
+                continue
+            bump("upper_checks")
             for k in sorted(rep.lits):
+                if k in closure_lits:
+                    continue
                 if (site, k) not in runs.upper:
-                    add("upper", site, k,
-                        f"pyanalyze: {rep.show()} at use #{site}, but no strict or liberal schedule reads {k} there")
+                    out.append(("upper", site, k, f"pyanalyze: {rep.show()} at use #{site}, but no strict or liberal "
+                                                  f"schedule reads {k} there"))
             if rep.unbound and (site, UNB) not in runs.upper:
-                add("upper", site, None,
-                    f"pyanalyze: {rep.show()} at use #{site}, but v is bound there under every strict and liberal schedule")
+                out.append(("upper", site, None, f"pyanalyze: {rep.show()} at use #{site}, but v is bound there under "
+                                                 f"every strict and liberal schedule"))
     return out
 
 
-def features(body):
-    return sorted({s[0] if s[0] != "with" else "with" + s[1] for _, s in sk.walk(body)} - {"asg", "use"})
+class Assessment:
+    __slots__ = ("raws", "runs", "reports", "other", "exception", "stats")
 
 
-def evaluate_batch(ctx, skels, record=True):
-    """-> list (per skeleton) of violation lists."""
-    reports, other, exc = pa_reports(skels)
-    results = []
-    if exc is not None:
-        ctx.violation("harness|exception", f"check raised {exc!r}",
-                      {"mode": skels[0][0], "skeleton": skels[0][1], "batch": [s[1] for s in skels]})
-        return [[] for _ in skels]
-    if record:
-        for code, n in other.items():
-            ctx.histo("other_codes", code, n)
-    for (mode, body), rep in zip(skels, reports):
-        runs = execute(mode, body)
-        vs = judge(mode, body, rep, runs, ctx if record else None)
-        if runs.inconsistent:
-            vs = []  # the harness disagrees with itself on this skeleton: no verdict
-        results.append(vs)
-        if not record:
-            continue
-        ctx.count("evaluations")
-        ctx.count("skeletons")
-        ctx.count("schedules_run", runs.nruns)
-        ctx.count("use_events", runs.use_events)
-        ctx.count("uses_observed", len(runs.upper))
-        ctx.count("upper_decided" if runs.decided else "upper_undecided")
-        if not runs.decided:
-            ctx.histo("upper_undecided_why", runs.why_undecided)
-        if runs.inconsistent:
-            ctx.count("harness_inconsistent")
-            ctx.note(f"harness-inconsistent: {runs.inconsistent[0][:160]} :: {sk.source_text(mode, body)!r}"[:600])
-        ctx.histo("size", f"{mode}:{sk.size(body)}")
-        for f in features(body):
-            ctx.histo("constructs", f)
-        per_site = {}
-        for s, x in runs.upper:
-            per_site.setdefault(s, set()).add(x)
-        if any(len(v) >= 2 for v in per_site.values()):
-            ctx.nontrivial((mode, body))
-        ctx.histo("max_outcomes_per_use", str(max((len(v) for v in per_site.values()), default=0)))
-        for r in rep.values():
-            ctx.histo("reported", ("unbound+" if r.unbound else "") + (f"{len(r.lits)}lit" if not r.other else "any"))
-        if len(ctx.samples) < 3 and sk.size(body) >= 4 and any(len(v) >= 2 for v in per_site.values()):
-            ctx.sample({"source": sk.source_text(mode, body),
-                        "strict": sorted(runs.strict, key=repr), "strict+liberal": sorted(runs.upper, key=repr),
-                        "pyanalyze": {str(s): r.show() for s, r in rep.items()}, "schedules": runs.nruns})
-    return results
+_CACHE: dict = {}
+
+
+def assess(mode, body, full: bool = True) -> Assessment:
+    """pyanalyze + all executions + verdicts for one (unmarked) skeleton.  Pure in (mode, body); the raw
+    verdicts are memoised (minimisation re-checks the same small skeletons over and over)."""
+    key = (mode, body)
+    if not full and key in _CACHE:
+        a = Assessment()
+        a.raws = _CACHE[key]
+        return a
+    a = Assessment()
+    reports, a.other, a.exception = pa_reports([(mode, body)])
+    a.reports = reports[0]
+    a.stats = {}
+    if a.exception is not None:
+        a.runs = None
+        a.raws = []
+    else:
+        a.runs = execute(mode, body)
+        # the harness disagreeing with itself on this skeleton: no verdict
+        a.raws = [] if a.runs.inconsistent else judge(mode, body, a.reports, a.runs, a.stats)
+    if len(_CACHE) > 1000000:
+        _CACHE.clear()
+    _CACHE[key] = a.raws
+    return a
 
 
 # ---------------------------------------------------------------------------
-# witness minimisation
+# witness minimisation: the violating (assignment, use) pair is marked and everything else is cut away while
+# the same pair keeps violating the same way; the mechanism key is read off the MINIMAL witness.
+
+
+def strip(body):
+    return tuple(
+        (s[0],) if s[0] in sk.SIMPLE else sk.rebuild(s, [strip(b) for _, b in sk.blocks_of(s)]) for s in body
+    )
+
+
+def mark(body, path, tag):
+    return _edit(body, path, ((dict(sk.walk(body))[path][0], tag),))
+
+
+def marked(body, tag):
+    return [p for p, s in sk.walk(body) if len(s) == 2 and s[0] in sk.SIMPLE and s[1] == tag]
+
+
+def _unassigned(lit):
+    return None if lit in (0, None) else lit  # global mode: the module's 0 is the "not assigned by f" state
+
+
+def still_violates(mode, mbody, side, kind):
+    """Does the marked pair of the marked skeleton still violate on the same side in the same way?"""
+    pu = marked(mbody, "U")
+    pa = marked(mbody, "A")
+    if len(pu) != 1 or (kind == "literal" and len(pa) != 1):
+        return None
+    body = strip(mbody)
+    if not sk.valid(mode, body):
+        return None
+    lits, sites = sk.number(body)
+    site = sites[pu[0]]
+    want = lits[pa[0]] if kind == "literal" else None
+    for s_, site_, lit_, msg in assess(mode, body, full=False).raws:
+        if s_ == side and site_ == site and _unassigned(lit_) == want:
+            return msg
+    return None
 
 
 def _deletions(body):
-    """Candidate smaller bodies, biggest cuts first: delete a statement, or replace a compound by one of its
-    blocks, or drop an optional clause."""
+    """Candidate smaller bodies, biggest cuts first: delete a statement, replace a compound by one of its
+    blocks, drop an optional clause, weaken a construct."""
     paths = [(p, s) for p, s in sk.walk(body)]
     paths.sort(key=lambda ps: -sk.size((ps[1],)))
     for p, s in paths:
         yield _edit(body, p, ())
     for p, s in paths:
-        for role, b in sk.blocks_of(s):
+        bl = sk.blocks_of(s)
+        for role, b in bl:
             if b:
                 yield _edit(body, p, b)
-        bl = sk.blocks_of(s)
+        if len([b for _, b in bl if b]) > 1:  # the blocks one after the other, without the construct
+            seq = []
+            for _, b in bl:
+                if seq and not sk.block_completes(tuple(seq)):
+                    break
+                seq += list(b)
+            yield _edit(body, p, tuple(seq))
         for j, (role, b) in enumerate(bl):
             if b and role in ("if-else", "while-else", "for-else", "try-else", "finally"):
                 nb = [x for _, x in bl]
                 nb[j] = ()
                 yield _edit(body, p, (sk.rebuild(s, nb),))
-        if s[0] == "try" and s[2] is not None and s[4]:
+        if s[0] == "try" and s[2] is not None and s[4] and not s[3]:
             yield _edit(body, p, (("try", s[1], None, (), s[4]),))
         if s[0] == "with" and s[1] == "S":
             yield _edit(body, p, (("with", "N", s[2]),))
         if s[0] == "wtrue":
             yield _edit(body, p, (("while", s[1], ()),))
+        if s[0] == "for":
+            yield _edit(body, p, (("while", s[1], s[2]),))
 
 
 def _edit(body, path, replacement):
     """Replace the statement at `path` by the statements `replacement` (spliced)."""
 
-    def go(block, role, depth):
+    def go(block, depth):
         r, i = path[depth]
         s = block[i]
         if depth == len(path) - 1:
             return tuple(block[:i]) + tuple(replacement) + tuple(block[i + 1:])
-        bl = sk.blocks_of(s)
         nr = path[depth + 1][0]
-        nb = [go(b, rr, depth + 1) if rr == nr else b for rr, b in bl]
+        nb = [go(b, depth + 1) if rr == nr else b for rr, b in sk.blocks_of(s)]
         return tuple(block[:i]) + (sk.rebuild(s, nb),) + tuple(block[i + 1:])
 
-    return go(tuple(body), "top", 0)
+    return go(tuple(body), 0)
 
 
-def shrink(ctx, mode, body, key):
+_SHRUNK: dict = {}
+
+
+def shrink(mode, mbody, side, kind):
+    """Greedy; <= SHRINK_BUDGET re-checks. -> (mode, marked body, message)."""
+    memo_key = (mode, mbody, side, kind)
+    if memo_key in _SHRUNK:
+        return _SHRUNK[memo_key]
     budget = SHRINK_BUDGET
+    msg = still_violates(mode, mbody, side, kind)
     changed = True
     while changed and budget > 0:
         changed = False
+        cands = [(mode, c) for c in _deletions(mbody)]
+        if mode == "global":
+            cands.insert(0, ("local", mbody))
         seen = set()
-        for cand in _deletions(body):
-            if cand in seen or not sk.valid(mode, cand) or not _has_use(cand):
+        for m2, cand in cands:
+            if (m2, cand) in seen or not cand:
                 continue
-            seen.add(cand)
+            seen.add((m2, cand))
             if budget <= 0:
                 break
             budget -= 1
-            vs = evaluate_batch(ctx, [(mode, cand)], record=False)[0]
-            hit = [w for k, w in vs if k == key]
-            if hit:
-                body = cand
+            got = still_violates(m2, cand, side, kind)
+            if got is not None:
+                mode, mbody, msg = m2, cand, got
                 changed = True
                 break
-    return body
-
-
-def _has_use(body) -> bool:
-    kinds = [s[0] for _, s in sk.walk(body)]
-    return "use" in kinds or ("gdef" in kinds and "gcall" in kinds)
+    _SHRUNK[memo_key] = (mode, mbody, msg)
+    return mode, mbody, msg
 
 
 # ---------------------------------------------------------------------------
-# driver
+# mechanism key (DESIGN Appendix A): side, (construct of the assignment, construct of the use), unbound|literal
+
+_ROLE = {"while-body": "loop-body", "for-body": "loop-body", "while-else": "loop-else", "for-else": "loop-else"}
+
+
+# blocks of one compound statement between which control flows forward; (loop-else, loop-body) is kept by
+# name as well although nothing flows that way: it is the shape of a known leak
+_FORWARD = {("try-body", "except"), ("try-body", "try-else"), ("try-body", "finally"), ("except", "finally"),
+            ("try-else", "finally"), ("loop-body", "loop-else")}
+
+
+def _role(r: str) -> str:
+    return _ROLE.get(r, r)
+
+
+def _loop_of(path) -> str:
+    for r, _ in reversed(path):
+        if r in ("while-body", "for-body", "wtrue-body"):
+            return _role(r)
+    return "none"
+
+
+def _common(pa, pu) -> int:
+    i = 0
+    while i < len(pa) and i < len(pu) and pa[i] == pu[i]:
+        i += 1
+    return i
+
+
+def _falls_through(body, path) -> bool:
+    """Can the block that holds the statement at `path` complete normally?"""
+    block = body
+    for d, (role, idx) in enumerate(path):
+        if d == len(path) - 1:
+            return sk.block_completes(block)
+        block = dict(sk.blocks_of(block[idx]))[path[d + 1][0]]
+    return True
+
+
+KEY_DEPTH = 1  # how many constructs below the common ancestor name each side (deeper = finer keys, but the
+# variants of one defect multiply and the key set of a sampled run stops being the same for every seed)
+
+
+def _chain(path) -> str:
+    return "/".join(_role(r) for r, _ in path[:KEY_DEPTH]) or "plain"
+
+
+def relation(pa, pu, body=None) -> str:
+    """How the assignment at path pa sits relative to the use at path pu in a MINIMAL witness: the chains of
+    constructs below their lowest common ancestor.  `while` and `for` share their else / second-visit handling
+    in pyanalyze and are both called `loop`; `while True` takes another path there."""
+    i = _common(pa, pu)
+    if pa[i][0] == pu[i][0]:  # same block, different statements
+        if pa[i][1] < pu[i][1]:
+            if (len(pa) > i + 1 and body is not None and pa[i + 1][0] not in ("while-body", "for-body", "wtrue-body")
+                    and not _falls_through(body, pa[: i + 2])):
+                return f"back-edge@{_loop_of(pa[: i + 1])}"  # e.g. `if c(): v = 1; break` then the use
+            return f"{_chain(pa[i + 1:])}>after"
+        return f"back-edge@{_loop_of(pa[: i + 1])}"  # the assignment is textually after the use
+    a, u = _role(pa[i][0]), _role(pu[i][0])  # different blocks of one compound statement
+    if (a, u) in _FORWARD or (a, u) == ("loop-else", "loop-body"):
+        return f"{_chain(pa[i:])}>{_chain(pu[i:])}"
+    return f"back-edge@{_loop_of(pa[:i])}"  # e.g. if-body -> if-else: only around an enclosing loop
+
+
+def mech_key(mode, mbody, side, kind) -> str:
+    """Key of a MINIMAL marked witness."""
+    pu = marked(mbody, "U")[0]
+    stmt_at = dict(sk.walk(mbody))
+    if stmt_at[pu][0] == "gdef":
+        return f"{side}|{kind}|nested-def-read"
+    asgs = [p for p, s in sk.walk(mbody) if s[0] in ("asg", "hdef")]
+    pre = "global:" if mode == "global" else ""
+    if any(stmt_at[p][0] == "hdef" for p in asgs):
+        # the minimal witness needs the nonlocal-writing nested def: that is the mechanism
+        return f"{side}|{kind}|nonlocal-def"
+    if kind == "literal":
+        return f"{side}|{kind}|{pre}{relation(marked(mbody, 'A')[0], pu, strip(mbody))}"
+    # unbound: no single assignment is to blame; name the construct the use sits in
+    return f"{side}|{kind}|{pre}use@{_role(pu[1][0]) if len(pu) > 1 else 'plain'}"
+
+
+def classify(mode, body, raw):
+    """raw violation of an unmarked skeleton -> (key, what, witness)."""
+    side, site, lit, msg = raw
+    kind = "unbound" if _unassigned(lit) is None else "literal"
+    lits, sites = sk.number(body)
+    pu = next(p for p, s in sites.items() if s == site)
+    mbody = mark(body, pu, "U")
+    if kind == "literal":
+        pa = next(p for p, k in lits.items() if k == lit)
+        mbody = mark(mbody, pa, "A")
+    m2, small, msg2 = shrink(mode, mbody, side, kind)
+    key = mech_key(m2, small, side, kind)
+    sbody = strip(small)
+    text = sk.source_text(m2, sbody)
+    return key, f"{msg2 or msg}\n{text}", {"mode": m2, "skeleton": to_json(sbody), "source": text, "key": key}
+
+
+def features(body):
+    return sorted({s[0] if s[0] != "with" else "with" + s[1] for _, s in sk.walk(body)} - {"asg", "use"})
 
 
 def to_json(x):
@@ -461,27 +575,59 @@ def from_json(j):
     return j
 
 
-def run_work(ctx, work, shrunk_per_key) -> None:
-    for mode in ("local", "global"):
-        part = [w for w in work if w[0] == mode]
-        for i in range(0, len(part), BATCH):
-            chunk = part[i: i + BATCH]
-            results = evaluate_batch(ctx, chunk)
-            for (m, body), vs in zip(chunk, results):
-                for key, what in vs:
-                    ctx.histo("violation_keys", key)
-                    if shrunk_per_key.get(key, 0) < SHRINK_PER_KEY:
-                        shrunk_per_key[key] = shrunk_per_key.get(key, 0) + 1
-                        small = shrink(ctx, m, body, key)
-                        ctx.count("witnesses_shrunk")
-                        if small != body:
-                            vs2 = evaluate_batch(ctx, [(m, small)], record=False)[0]
-                            what = next((w for k, w in vs2 if k == key), what)
-                        wb = small
-                    else:
-                        wb = body
-                    ctx.violation(key, what, {"mode": m, "skeleton": to_json(wb),
-                                              "source": sk.source_text(m, wb), "key": key})
+# ---------------------------------------------------------------------------
+# driver
+
+
+def run_one(ctx, mode, body) -> None:
+    a = assess(mode, body)
+    ctx.count("evaluations")
+    ctx.count("skeletons")
+    if a.exception is not None:
+        ctx.violation("harness|exception", f"check raised {a.exception!r}\n{sk.source_text(mode, body)}",
+                      {"mode": mode, "skeleton": to_json(body), "source": sk.source_text(mode, body)})
+        return
+    runs, rep = a.runs, a.reports
+    for name, n in a.stats.items():
+        ctx.count(name, n)
+    for code, n in a.other.items():
+        ctx.histo("other_codes", code, n)
+    ctx.count("schedules_run", runs.nruns)
+    ctx.count("use_events", runs.use_events)
+    ctx.count("uses_observed", len(runs.upper))
+    ctx.count("upper_decided" if runs.decided else "upper_undecided")
+    if not runs.decided:
+        ctx.histo("upper_undecided_why", runs.why_undecided)
+        if runs.why_undecided == "not-saturated":
+            ctx.note(f"not saturated at L=3: {sk.source_text(mode, body)!r}")
+    if runs.inconsistent:
+        ctx.count("harness_inconsistent")
+        ctx.note(f"harness-inconsistent: {runs.inconsistent[0][:160]} :: {sk.source_text(mode, body)!r}"[:600])
+    ctx.histo("size", f"{mode}:{sk.size(body)}")
+    for f in features(body):
+        ctx.histo("constructs", f)
+    per_site = {}
+    for s, x in runs.upper:
+        per_site.setdefault(s, set()).add(x)
+    nontrivial = any(len(v) >= 2 for v in per_site.values())
+    if nontrivial:
+        ctx.nontrivial((mode, body))
+    ctx.histo("max_outcomes_per_use", str(max((len(v) for v in per_site.values()), default=0)))
+    for r in rep.values():
+        ctx.histo("reported", ("unbound+" if r.unbound else "") + (f"{len(r.lits)}lit" if not r.other else "any"))
+    if len(ctx.samples) < 3 and sk.size(body) >= 4 and nontrivial:
+        ctx.sample({"source": sk.source_text(mode, body),
+                    "strict": sorted(runs.strict, key=repr), "strict+liberal": sorted(runs.upper, key=repr),
+                    "pyanalyze": {str(s): r.show() for s, r in rep.items()}, "schedules": runs.nruns})
+    done = set()
+    for raw in a.raws:
+        ctx.count("raw_violations")
+        key, what, wit = classify(mode, body, raw)
+        if key in done:
+            continue
+        done.add(key)
+        ctx.histo("violation_keys", key)
+        ctx.violation(key, what, wit)
 
 
 def shard(ctx) -> None:
@@ -500,36 +646,37 @@ def shard(ctx) -> None:
                     work.append((mode, body))
     ctx.count("exhaustive_skeletons", len(work))
     if not ctx.quick:
-        want = 2500
+        want = SAMPLED_PER_SHARD
         tries = 0
         seen = set()
-        while want > 0 and tries < 200000:
+        while want > 0 and tries < 40 * SAMPLED_PER_SHARD:
             tries += 1
-            s = sk.random_skeleton(ctx.rng, ctx.rng.choice((6, 6, 7)), 3)
-            if s is None or s in seen or sk.size(s[1]) < 6 or sk.size(s[1]) > 7 or sk.depth(s[1]) > 4:
+            s = sk.random_skeleton(ctx.rng, ctx.rng.choice((6, 6, 7, 7)), 3)
+            if s is None or s in seen or not 6 <= sk.size(s[1]) <= 7 or sk.depth(s[1]) > 4:
                 continue
             seen.add(s)
             work.append(s)
             want -= 1
         ctx.count("sampled_skeletons", len(seen))
-    run_work(ctx, work, {})
+    for mode, body in work:
+        run_one(ctx, mode, body)
+    ctx.count("shrink_memo", len(_SHRUNK))
+    ctx.count("assess_memo", len(_CACHE))
 
 
 def replay(witness):
-    from vp.core import Ctx
-
-    ctx = Ctx(ID, "quick", 0, 0, 1)
     mode = witness["mode"]
-    body = from_json(witness["skeleton"])
+    body = strip(from_json(witness["skeleton"]))
     if not sk.valid(mode, body):
         return None
-    vs = evaluate_batch(ctx, [(mode, body)], record=False)[0]
-    for h in ctx.violations:  # harness|exception
-        return h, ctx.violations[h][0]["what"]
+    a = assess(mode, body)
+    if a.exception is not None:
+        return "harness|exception", f"check raised {a.exception!r}"
+    found = [classify(mode, body, raw)[:2] for raw in a.raws]
     want = witness.get("key")
-    for key, what in vs:
+    for key, what in found:
         if key == want:
             return key, what
-    for key, what in vs:
+    for key, what in found:
         return key, what
     return None
